@@ -121,6 +121,7 @@ def classify(case, k, how):
 def sequences(ctx):
     r = ctx.rng("sequences")
     n = 2400 if ctx.quick else 30000
+    n = max(50, int(n * float(os.environ.get("VERIF_C07_SCALE", "1"))))       # development aid
     cases = [G.gen_case(r) for i in range(n)]
     chunk = 400
     chunks = [cases[i:i + chunk] for i in range(0, n, chunk)]
@@ -241,6 +242,7 @@ def parse_lines(text):
 def programs(ctx):
     r = ctx.rng("programs")
     nprog = 16 if ctx.quick else 200
+    nprog = max(2, int(nprog * float(os.environ.get("VERIF_C07_SCALE", "1"))))
     nprobes = (len(PG.COPY) + len(PG.ALIAS)) if ctx.quick else 2 * (len(PG.COPY) + len(PG.ALIAS))
     progs = [PG.gen_program(r, i, nprobes) for i in range(nprog)]
 
